@@ -150,105 +150,6 @@ class program:
 
 
 
-    def sumarise_vcf_record(self, data):
-
-        """Generate VCF record fields."""
-
-        data.columndata[COLUMN.CHROM] = data.locus.contig
-
-        data.columndata[COLUMN.POS] = data.locus.start + 1
-
-        data.columndata[COLUMN.ID] = data.locus.name
-
-        data.columndata[COLUMN.QUAL] = np.nan
-
-        data.infodata[INFO.END] = data.locus.stop
-
-        data.infodata[INFO.NVAR] = len(data.locus.variants)
-
-        data.infodata[INFO.SNVPOS] = np.subtract(data.locus.positions, data.locus.start) + 1
-
-        if len(data.columndata[COLUMN.FILTER]) == 0:
-
-            data.columndata[COLUMN.FILTER] = vcf.filters.PASS.id
-
-        allele_counts = np.zeros(len(data.columndata[COLUMN.ALT]) + 1, int)
-
-        for array in data.sampledata[FORMAT.GT].values():
-
-            for a in array:
-
-                if a >= 0:
-
-                    allele_counts[a] += 1
-
-        data.infodata[INFO.AC] = allele_counts[1:]
-
-        data.infodata[INFO.AN] = np.sum(allele_counts)
-
-        data.infodata[INFO.UAN] = np.sum(allele_counts > 0)
-
-        data.infodata[INFO.NS] = sum((np.any(a >= 0) for a in data.sampledata[FORMAT.GT].values()))
-
-        data.infodata[INFO.MCI] = sum((mci > 0 for mci in data.sampledata[FORMAT.MCI].values()))
-
-        if len(data.locus.variants) == 0:
-
-            data.infodata[INFO.DP] = np.nan
-
-        else:
-
-            data.infodata[INFO.DP] = np.nansum(list(data.sampledata[FORMAT.DP].values()))
-
-        data.infodata[INFO.RCOUNT] = np.nansum(list(data.sampledata[FORMAT.RCOUNT].values()))
-
-        n_allele = len(data.columndata[COLUMN.ALT]) + 1
-
-        null_length_R = np.full(n_allele, np.nan)
-
-        if INFO.ACP in data.infofields:
-
-            _ACP = sum(data.sampledata[FORMAT.ACP].values())
-
-            _ACP = null_length_R if np.isnan(_ACP).all() else _ACP
-
-            data.infodata[INFO.ACP] = _ACP
-
-        if INFO.AFP in data.infofields:
-
-            _AFP = sum(data.sampledata[FORMAT.ACP].values()) / sum(data.sample_ploidy.values())
-
-            _AFP = null_length_R if np.isnan(_AFP).all() else _AFP
-
-            data.infodata[INFO.AFP] = _AFP
-
-        if INFO.AOPSUM in data.infofields:
-
-            _AOPSUM = sum(data.sampledata[FORMAT.AOP].values())
-
-            _AOPSUM = null_length_R if np.isnan(_AOPSUM).all() else _AOPSUM
-
-            data.infodata[INFO.AOPSUM] = _AOPSUM
-
-        if INFO.AOP in data.infofields:
-
-            prob_not_occurring = np.ones(len(data.columndata[COLUMN.ALT]) + 1, float)
-
-            for occur in data.sampledata[FORMAT.AOP].values():
-
-                prob_not_occurring = prob_not_occurring * (1 - occur)
-
-            prob_occurring = 1 - prob_not_occurring
-
-            data.infodata[INFO.AOP] = prob_occurring
-
-        if INFO.SNVDP in data.infofields:
-
-            _SNVDP = sum(data.sampledata[FORMAT.SNVDP].values())
-
-            data.infodata[INFO.SNVDP] = _SNVDP
-
-        return data
 
 
 
@@ -397,3 +298,105 @@ class LocusAssemblyData:
         format_string = vcf.format_sample_field(precision=self.precision, **kwargs)
 
         return vcf.format_record(chrom=self.columndata[COLUMN.CHROM], pos=self.columndata[COLUMN.POS], id=self.columndata[COLUMN.ID], ref=self.columndata[COLUMN.REF], alt=self.columndata[COLUMN.ALT], qual=self.columndata[COLUMN.QUAL], filter=self.columndata[COLUMN.FILTER], info=info_string, format=format_string, precision=self.precision)
+
+
+class program:
+    def sumarise_vcf_record(self, data):
+
+        """Generate VCF record fields."""
+
+        data.columndata[COLUMN.CHROM] = data.locus.contig
+
+        data.columndata[COLUMN.POS] = data.locus.start + 1
+
+        data.columndata[COLUMN.ID] = data.locus.name
+
+        data.columndata[COLUMN.QUAL] = np.nan
+
+        data.infodata[INFO.END] = data.locus.stop
+
+        data.infodata[INFO.NVAR] = len(data.locus.variants)
+
+        data.infodata[INFO.SNVPOS] = np.subtract(data.locus.positions, data.locus.start) + 1
+
+        if len(data.columndata[COLUMN.FILTER]) == 0:
+
+            data.columndata[COLUMN.FILTER] = vcf.filters.PASS.id
+
+        allele_counts = np.zeros(len(data.columndata[COLUMN.ALT]) + 1, int)
+
+        for array in data.sampledata[FORMAT.GT].values():
+
+            for a in array:
+
+                if a >= 0:
+
+                    allele_counts[a] += 1
+
+        data.infodata[INFO.AC] = allele_counts[1:]
+
+        data.infodata[INFO.AN] = np.sum(allele_counts)
+
+        data.infodata[INFO.UAN] = np.sum(allele_counts > 0)
+
+        data.infodata[INFO.NS] = sum((np.any(a >= 0) for a in data.sampledata[FORMAT.GT].values()))
+
+        data.infodata[INFO.MCI] = sum((mci > 0 for mci in data.sampledata[FORMAT.MCI].values()))
+
+        if len(data.locus.variants) == 0:
+
+            data.infodata[INFO.DP] = np.nan
+
+        else:
+
+            data.infodata[INFO.DP] = np.nansum(list(data.sampledata[FORMAT.DP].values()))
+
+        data.infodata[INFO.RCOUNT] = np.nansum(list(data.sampledata[FORMAT.RCOUNT].values()))
+
+        n_allele = len(data.columndata[COLUMN.ALT]) + 1
+
+        null_length_R = np.full(n_allele, np.nan)
+
+        if INFO.ACP in data.infofields:
+
+            _ACP = sum(data.sampledata[FORMAT.ACP].values())
+
+            _ACP = null_length_R if np.isnan(_ACP).all() else _ACP
+
+            data.infodata[INFO.ACP] = _ACP
+
+        if INFO.AFP in data.infofields:
+
+            _AFP = sum(data.sampledata[FORMAT.ACP].values()) / sum((data.sample_ploidy[s] for s in data.samples))
+
+            _AFP = null_length_R if np.isnan(_AFP).all() else _AFP
+
+            data.infodata[INFO.AFP] = _AFP
+
+        if INFO.AOPSUM in data.infofields:
+
+            _AOPSUM = sum(data.sampledata[FORMAT.AOP].values())
+
+            _AOPSUM = null_length_R if np.isnan(_AOPSUM).all() else _AOPSUM
+
+            data.infodata[INFO.AOPSUM] = _AOPSUM
+
+        if INFO.AOP in data.infofields:
+
+            prob_not_occurring = np.ones(len(data.columndata[COLUMN.ALT]) + 1, float)
+
+            for occur in data.sampledata[FORMAT.AOP].values():
+
+                prob_not_occurring = prob_not_occurring * (1 - occur)
+
+            prob_occurring = 1 - prob_not_occurring
+
+            data.infodata[INFO.AOP] = prob_occurring
+
+        if INFO.SNVDP in data.infofields:
+
+            _SNVDP = sum(data.sampledata[FORMAT.SNVDP].values())
+
+            data.infodata[INFO.SNVDP] = _SNVDP
+
+        return data
